@@ -441,6 +441,10 @@ def maxsize_first(ctx):
     for arm, entry in sorted(arms.items()):
         reg = arm_region(hm, entry)
         vcalls = [(i, t) for i, t in hm.calls(r"Context::validate_packet_size$") if i in reg]
+        hoisted = not vcalls
+        if not vcalls:
+            # checked once for all kinds of message, before the dispatch on the kind
+            vcalls = [(i, t) for i, t in hm.calls(r"Context::validate_packet_size$") if hm.dominates(i, entry)]
         if len(vcalls) != 1:
             out.append(Inst("MAXSIZE-FIRST", "arm=%s:validate-call" % arm, False, hm.site(entry), "%d validate_packet_size calls in the arm" % len(vcalls), "exactly one"))
             continue
@@ -453,6 +457,21 @@ def maxsize_first(ctx):
         # Err edge
         sw_bb = vt["t"]
         si = hm.switch_info(sw_bb) if sw_bb is not None else None
+        def _of_check(sx):
+            if not (sx and sx["kind"] == "discr" and sx.get("place") and set(sx["variants"].values()) <= {"Ok", "Err"}):
+                return False
+            o = hm.origin(sx["place"], through_calls=False)
+            return bool(o) and o[0] == "call" and o[1] == vb
+        if not _of_check(si):
+            si = None
+            # the result is kept in a local and matched on later (inside the arm)
+            for j in sorted(reg):
+                sj = hm.switch_info(j)
+                if sj and sj["kind"] == "discr" and set(sj["variants"].values()) <= {"Ok", "Err"}:
+                    o = hm.origin(sj["place"], through_calls=False) if sj.get("place") else None
+                    if o and o[0] == "call" and o[1] == vb:
+                        sw_bb, si = j, sj
+                        break
         err_succ = None
         if si and si["kind"] == "discr":
             for v, s_ in si["targets"]:
@@ -479,7 +498,7 @@ def maxsize_first(ctx):
             wfield = {(a[1], a[2]) for a in e.detail["buf"] if a[0] == "field" and a[2] == "packet"}
             wd = {a[1] for a in e.detail["buf"] if a[0] == "downcast"}
             out.append(Inst("MAXSIZE-FIRST", "arm=%s:same-slice:%s" % (arm, e.site().split(":")[-1] if False else len([x for x in out if "same-slice" in x.key and ("arm=%s:" % arm) in x.key])),
-                            bool(vfield) and vfield == wfield and arm in wd, e.site(),
+                            bool(vfield) and (vfield == wfield or (hoisted and bool(wfield) and wfield <= vfield)) and arm in wd, e.site(),
                             "checked slice from %s, written slice from %s of variant %s" % (sorted(vfield), sorted(wfield), sorted(wd - {"Some", "Ok", "Err", "Ready", "Continue", "Break"})),
                             "the bytes validated are the bytes written (msg.packet of this arm)"))
     return out
